@@ -185,7 +185,9 @@ def c14_cases(tier):
     cs = []
     helpers = "import pregex.core.pre as _premod"
     for tag, expr in (("groups-mixed", POOL[10][1]), ("empty-capable", POOL[2][1])) if tier == "quick" else [(t, e) for t, e, _ in POOL if t in ("groups-mixed", "empty-capable", "line-end", "groups-optional")]:
-        lines = ["p = %s" % expr, "path = '/no/such/dir/input.txt'", "log = []", "_premod.open = fake_open_factory(path, content, log)", "try:"]
+        # the path is shorter than most contents and matches nothing: a result computed from the path string instead of the
+        # file content (wrong clip length, compiled-pattern shortcut that skips the read) differs
+        lines = ["p = %s" % expr, "if comp:\n    p.compile()", "path = 'q'", "log = []", "_premod.open = fake_open_factory(path, content, log)", "try:"]
         for m, extra in METHODS:
             it = m.startswith("iterate_")
             a = "p.%s(path%s, is_path=True)" % (m, extra)
@@ -195,20 +197,21 @@ def c14_cases(tier):
             lines.append("    if %s != %s:\n        return False" % (a, b))
         lines += ["    for f, mode, enc in log:", "        if f != path or mode != 'r' or enc != 'utf-8':", "            return False",
                   "    if len(log) != %d:" % len(METHODS), "        return False", "finally:", "    del _premod.open", "return True"]
-        cs.append(engine.raw_case("\n".join(lines), [("content", "str")], ["1 <= len(content) and len(content) <= 3"],
-                                  "C14 %s %s: every method with is_path gives the same result for (path, is_path=True) as for the file content, 1 <= |content| <= 3" % (tag, expr),
-                                  helpers=helpers, concrete=[("",), ("a\nb\u00e9\n",), ("/no/such/dir/input.txt",)]))
+        cs.append(engine.raw_case("\n".join(lines), [("content", "str"), ("comp", "bool")], ["1 <= len(content) and len(content) <= 3"],
+                                  "C14 %s %s: every method with is_path gives the same result for (path, is_path=True) as for the file content, compiled or not (symbolic), 1 <= |content| <= 3" % (tag, expr),
+                                  helpers=helpers, concrete=[("", False), ("", True), ("a\nb\u00e9\n", False), ("xaby aab q", True), ("/no/such/dir/input.txt", False), ("q", True)]))
         body = ("p = %s\n" % expr) + (
-            "path = '/no/such/dir/input.txt'\nlog = []\n"
+            "path = 'q'\nlog = []\n"
             "d, gi = direct(p, content)\n"
+            "if comp:\n    p.compile()\n"
             "exp = [content[max(x[1] - nl, 0):min(x[2] + nr, len(content))] for x in d]\n"
             "if p.get_matches_with_context(content, nl, nr) != exp or list(p.iterate_matches_with_context(content, nl, nr)) != exp:\n    return False\n"
             "_premod.open = fake_open_factory(path, content, log)\n"
             "try:\n    if p.get_matches_with_context(path, nl, nr, is_path=True) != exp:\n        return False\nfinally:\n    del _premod.open\n"
             "return True")
-        cs.append(engine.raw_case(body, [("content", "str"), ("nl", "int"), ("nr", "int")], ["1 <= len(content) and len(content) <= 3 and 0 <= nl and nl <= 4 and 0 <= nr and nr <= 4"],
-                                  "C14 %s %s: context windows == text[max(s-nl,0):min(e+nr,len)] for string and file sources, nl, nr in [0,4] symbolic" % (tag, expr),
-                                  helpers=helpers, concrete=[("", 0, 0), ("", 2, 3), ("xaby aab", 100, 100), ("xaby aab", 0, 7)]))
+        cs.append(engine.raw_case(body, [("content", "str"), ("nl", "int"), ("nr", "int"), ("comp", "bool")], ["1 <= len(content) and len(content) <= 3 and 0 <= nl and nl <= 4 and 0 <= nr and nr <= 4"],
+                                  "C14 %s %s: context windows == text[max(s-nl,0):min(e+nr,len)] for string and file sources, nl, nr in [0,4] and compiled state symbolic" % (tag, expr),
+                                  helpers=helpers, concrete=[("", 0, 0, False), ("", 2, 3, True), ("xaby aab", 100, 100, False), ("xaby aab", 0, 7, True), ("xaby aab", 1, 2, False)]))
     body = ("p = Pregex('a')\n"
             "try:\n    p.get_matches_with_context('xax', nl, nr)\n    ok = True\nexcept InvalidArgumentValueException:\n    ok = False\n"
             "return ok == (nl >= 0 and nr >= 0)")
@@ -231,14 +234,14 @@ def run(prop, tier):
     common.import_pregex()
     import pregex.core.pre as pre
     P = pre.Pregex
-    fns = {"C11": [P.has_match, P.is_exact_match, P.iterate_matches, P.iterate_matches_and_pos, P.get_matches, P.get_matches_and_pos, P.compile,
-                   P.get_compiled_pattern, P.purge, P._Pregex__iterate_match_objects, P.get_pattern, P.__repr__],
-           "C12": [P.iterate_captures, P.iterate_captures_and_pos, P.iterate_named_captures, P.iterate_named_captures_and_pos, P.get_captures,
-                   P.get_captures_and_pos, P.get_named_captures, P.get_named_captures_and_pos],
-           "C13": [P.replace, P.split_by_match, P.split_by_capture],
-           "C14": [P._Pregex__extract_text, P.iterate_matches_with_context, P.get_matches_with_context, P.has_match, P.is_exact_match, P.replace,
-                   P.split_by_match, P.split_by_capture, P._Pregex__iterate_match_objects]}[prop]
-    run.functions = common.src_fingerprint(fns)
+    fns = {"C11": [(P, "has_match"), (P, "is_exact_match"), (P, "iterate_matches"), (P, "iterate_matches_and_pos"), (P, "get_matches"), (P, "get_matches_and_pos"), (P, "compile"),
+                   (P, "get_compiled_pattern"), (P, "purge"), (P, "_Pregex__iterate_match_objects"), (P, "get_pattern"), (P, "__repr__")],
+           "C12": [(P, "iterate_captures"), (P, "iterate_captures_and_pos"), (P, "iterate_named_captures"), (P, "iterate_named_captures_and_pos"), (P, "get_captures"),
+                   (P, "get_captures_and_pos"), (P, "get_named_captures"), (P, "get_named_captures_and_pos")],
+           "C13": [(P, "replace"), (P, "split_by_match"), (P, "split_by_capture")],
+           "C14": [(P, "_Pregex__extract_text"), (P, "iterate_matches_with_context"), (P, "get_matches_with_context"), (P, "has_match"), (P, "is_exact_match"), (P, "replace"),
+                   (P, "split_by_match"), (P, "split_by_capture"), (P, "_Pregex__iterate_match_objects")]}[prop]
+    run.functions = common.src_fingerprint(common.resolve(fns))
     cases = CASES[prop](tier)
     outs = engine.run_cases(cases, per_condition_timeout=420 if tier == "quick" else 2400)
     run.add(engine.to_results(cases, outs))
